@@ -80,7 +80,7 @@ def run(chk, tier, replay):
     chk.assumptions += ["Write histories stay inside the documented API contract (non-empty batches, balanced columns, non-NULL values pointer)",
                         "Values returned for a nullable column are dense per read_batch call (DESIGN.md section 5)",
                         "TLC; WriterTrace.tla/Writer.tla; harness h_file copies bytes only"]
-    hs = histories(chk, tier)
+    hs = histories(chk, tier) + wcommon.count_boundary_histories(chk, tier)
     cfgs = configs(tier)
     # read back twice: the whole chunk in one call (fread) and in pieces of 3 rows (buffer)
     execs, meta, files, faults = wcommon.run_histories(chk, hs, cfgs, modes=("f", "b3"), with_file=False)
